@@ -176,7 +176,7 @@ theorem command_rt (c : Command) (prev : Option Lex) (more : List Lex) (W : List
   refine ⟨W1, ln1, _, ?_, hgood1, ?_, by rw [hdrop1, tail_drop]; simp [Command.lexemes]⟩
   · simp only [parseCommand, renderW, Lex.text]
     rw [hreq]
-    simp only [h2, hp1]
+    simp only [cmdArityM_eq, h2, hp1]
   · rw [hcons1]
     simp only [renderW, nl_append, lex_text_no_nl _ hok]
     simp only [nl]; omega
